@@ -112,6 +112,22 @@ pub fn asm_step_case(c: &Case, k: usize) {
 // phase, wait pattern and halt position up to K edges per step.  R1 counts the edges.
 
 #[cfg(kani)]
+static mut EDGE_COUNT: u32 = 0;
+#[cfg(kani)]
+static mut EDGE_LIMIT: u32 = u32::MAX;
+
+/// Every stubbed edge is counted; the real stepping function may never issue more edges than the
+/// reference needed (turns "runs past the boundary" into an assertion failure instead of an
+/// unwinding-bound failure).
+#[cfg(kani)]
+fn count_edge() {
+    unsafe {
+        EDGE_COUNT += 1;
+        assert!(EDGE_COUNT <= EDGE_LIMIT, "more clock edges issued than clock-stepping to the next boundary needs");
+    }
+}
+
+#[cfg(kani)]
 static mut NEXT_ID: [u8; 16] = [0; 16];
 #[cfg(kani)]
 static mut ADDR_OF: [u16; 16] = [0; 16];
@@ -129,6 +145,7 @@ fn st_of(x: u8) -> State {
 
 #[cfg(kani)]
 pub fn abstract_edge(m: &mut emulator_2a_lib::machine::RawMachine) {
+    count_edge();
     unsafe {
         let id = (*m.registers().get(RegisterNumber::R0) & 15) as usize;
         let nid = NEXT_ID[id] & 15;
@@ -178,6 +195,10 @@ fn abstract_step_equiv(k: usize) {
         }
     }
     kani::assume(finished && n <= k); // bound: the step needs at most k edges
+    unsafe {
+        EDGE_COUNT = 0;
+        EDGE_LIMIT = n as u32;
+    }
     m.set_step_mode(StepMode::Assembly);
     m.trigger_key_clock();
     assert!(m.registers().get(RegisterNumber::R1) == r.registers().get(RegisterNumber::R1), "same number of clock edges: never more, never less");
@@ -230,6 +251,7 @@ fn count_of(m: &emulator_2a_lib::machine::RawMachine) -> u16 {
 
 #[cfg(kani)]
 pub fn counter_edge(m: &mut emulator_2a_lib::machine::RawMachine) {
+    count_edge();
     unsafe {
         // the edge count lives in two scalar fields (IR : bus latch)
         let c = count_of(m).wrapping_add(1);
@@ -267,6 +289,10 @@ fn long_step(max: u16) {
     // closed-form reference: edges are issued until the first count c > c0 that is a halt or,
     // once the boundary has been left, a boundary again
     let stop_at = if halt > c0 && halt < back { halt } else { back };
+    unsafe {
+        EDGE_COUNT = 0;
+        EDGE_LIMIT = (stop_at - c0) as u32;
+    }
     m.set_step_mode(StepMode::Assembly);
     m.trigger_key_clock();
     let c = count_of(&m);
@@ -309,6 +335,10 @@ pub fn real_step_is_one_edge() {
     let mut m = Machine::new(MachineConfig::default());
     m.raw_mut().verif_set_ir((c0 >> 8) as u8);
     m.raw_mut().verif_set_last_bus_read(c0 as u8);
+    unsafe {
+        EDGE_COUNT = 0;
+        EDGE_LIMIT = 1;
+    }
     m.set_step_mode(StepMode::Real);
     m.trigger_key_clock();
     assert!(count_of(&m) == c0 + 1, "Real mode: one clock edge per call");
